@@ -99,7 +99,7 @@ def anderson_acc(fcn: Callable[..., torch.Tensor], x0: torch.Tensor, params: Lis
     stop_cond = custom_terminator if custom_terminator is not None \
         else TerminationCondition(f_tol, f_rtol, devnorm, x_tol, x_rtol)
     if devnorm == 0:
-        return x0
+        return _unravel(xn)
 
     converge = False
     for k in range(2, maxiter):
